@@ -825,7 +825,14 @@ func checkCpIncrTable(c *Ctx, l *Loaded, rule, label string, fn *ssa.Function, t
 		} else if run.stuck != nil {
 			got += " ; stuck at " + l.ipos(run.stuck)
 		}
-		c.decide(rule, label+": "+sc.name, l.pos(fn.Pos()), got == sc.want, got, "does `"+got+"`, increment-with-carry is `"+sc.want+"` (a 0xFF byte becomes 0x00 and the carry moves left; all-0xFF overflows to nil)")
+		okRow := got == sc.want
+		if tight && sc.b == 0xFF {
+			// the bound is cut after the incremented byte: what is written into the carried positions is cut off with
+			// them, so zeroing them is optional; moving on to the next byte (or overflowing to nil) is what matters
+			stripped := strings.TrimPrefix(got, "elem:=0 ; ")
+			okRow = stripped == strings.TrimPrefix(sc.want, "elem:=0 ; ") || stripped == "<loop>"
+		}
+		c.decide(rule, label+": "+sc.name, l.pos(fn.Pos()), okRow, got, "does `"+got+"`, increment-with-carry is `"+sc.want+"` (a 0xFF byte becomes 0x00 and the carry moves left; all-0xFF overflows to nil)")
 		// the bound used for REVERSE ranges must be tight: cut after the incremented byte ({01 FF} → {02}); the
 		// same-length {02 00} admits the foreign key {02}, on which the reverse cursor starts — and the namespace looks empty
 		if tight && sc.i == 2 && sc.b != 0xFF && run.ret != nil {
